@@ -15,7 +15,9 @@ RULE = ("part 1 (complete comparison of constants): every fixed catalog gate (h 
         "postprocessed ccz, toffoli and the n-qubit controlled rotation (n=2,3,4, several alpha) judged per instance on "
         "the implementation's matrix read on a 2^-40 grid (logical amplitudes by the exact amp_num, leakage enumerated). "
         "part 2 (translation validation): random source circuits for Qiskit, myQLM, cQASM (2-4 qubits, <= 8 gates, "
-        "two-qubit gates on arbitrary ordered pairs incl. non-adjacent and control above target, both use_postselection "
+        "two-qubit gates on arbitrary ordered pairs incl. non-adjacent and control above target, one-qubit gates outside "
+        "the catalog covering every template of the generic conversion (identity, phase on either rail, two phases, "
+        "dense; random 2x2 unitaries through qiskit `unitary` / myQLM AbstractGate, u, r, sx, sxdg, id), both use_postselection "
         "values): the converted processor's unitary on a 2^-40 grid with its heralds and post-selection goes through "
         "the exact amp_num; every logical state must pass heralds+post-selection, the amplitude matrix must equal the "
         "source unitary (own gate-list simulator; qiskit's Operator as second oracle) up to one complex factor, and "
@@ -32,7 +34,9 @@ TRUSTED = ["model: coq/Model/Catalog.v, CatalogX.v, coq/Lib/Quad.v (hand-written
 ASSUMPTIONS = ["floating-point rounding not modelled: implementation matrices are read as exact dyadic rationals on a "
                "2^-40 grid; comparison tolerance 1e-9 for constants, 1e-7 relative for converted circuits",
                "converters: per-instance validation, no general theorem (composition of post-processed gates is not "
-               "modular); optimizer-fitted generic one-qubit gates (e.g. qiskit sx) are outside the generated gate set",
+               "modular); one-qubit gates outside the catalog (qiskit unitary/u/r/sx/sxdg/id, myQLM AbstractGate/I) are "
+               "fitted by the converter's optimiser (random restarts, not reproducible from the seed): circuits "
+               "containing k of them are judged with relative tolerance k * 1e-4 (the converter's own min_precision_gate)",
                "perm(I + a J_n) = 1 + a^n is proved for n = 2, 3, 4 only; other n are covered per instance"]
 EXPLANATION = ("Two converter defects found by this check are repaired in /repo (c0ab6b50: post-selection transfer for "
                "non-monotone mode maps in Experiment._compose_experiment; 8dc2ac38: no post-processed CNOT when CZ/CSIGN/SWAP "
@@ -189,8 +193,27 @@ def np_rows(M):
 
 
 # ------------------------------------------------------------------ source-circuit semantics (big-endian: qubit 0 = MSB)
+def cplx_rows(M):
+    return [[complex(z[0], z[1]) for z in row] for row in M]
+
+
 def gate_matrix(name, par):
     r = 1 / math.sqrt(2)
+    if name == "u2":            # arbitrary one-qubit unitary, par = [[[re, im], [re, im]], [[re, im], [re, im]]]
+        return cplx_rows(par)
+    if name == "id":
+        return [[1, 0], [0, 1]]
+    if name in ("sx", "sxdg"):
+        a, b = (0.5 + 0.5j, 0.5 - 0.5j) if name == "sx" else (0.5 - 0.5j, 0.5 + 0.5j)
+        return [[a, b], [b, a]]
+    if name == "u":             # qiskit U(theta, phi, lam)
+        th, ph, lm = par
+        return [[math.cos(th / 2), -cmath.exp(1j * lm) * math.sin(th / 2)],
+                [cmath.exp(1j * ph) * math.sin(th / 2), cmath.exp(1j * (ph + lm)) * math.cos(th / 2)]]
+    if name == "r":             # qiskit R(theta, phi)
+        th, ph = par
+        return [[math.cos(th / 2), -1j * cmath.exp(-1j * ph) * math.sin(th / 2)],
+                [-1j * cmath.exp(1j * ph) * math.sin(th / 2), math.cos(th / 2)]]
     c, s = (math.cos(par / 2), math.sin(par / 2)) if par is not None else (None, None)
     return {
         "h": lambda: [[r, r], [r, -r]], "x": lambda: [[0, 1], [1, 0]], "y": lambda: [[0, -1j], [1j, 0]],
@@ -235,6 +258,61 @@ ONE_Q = {"qiskit": ["h", "x", "y", "z", "s", "sdg", "t", "tdg", "rx", "ry", "rz"
          "cqasm": ["h", "x", "y", "z", "s", "sdg", "t", "tdg", "rx", "ry", "rz", "x90", "mx90", "y90", "my90"]}
 TWO_Q = {"qiskit": ["cx", "cz", "swap"], "myqlm": ["cx", "cz", "swap"], "cqasm": ["cx", "cz"]}
 PARAM = {"rx", "ry", "rz", "p"}
+# one-qubit gates that are NOT catalog gates: the converter fits a template to their matrix
+# (_create_generic_1_qubit_gate: identity / phase on rail 1 / phase on rail 0 / two phases / generic two-mode circuit)
+GENERIC = {"qiskit": ["u2", "u2", "u2", "sx", "sxdg", "u", "r", "id"], "myqlm": ["u2", "u2", "u2", "id"], "cqasm": []}
+GENERIC_NAMES = {"u2", "sx", "sxdg", "u", "r", "id"}
+BRANCHES = ["identity", "upper-phase", "lower-phase", "two-phases", "two-phases-equal", "dense", "dense-near-diagonal"]
+# tolerance per optimiser-fitted gate: the converter declares gate matrices known to min_precision_gate = 1e-4 and its
+# optimiser stops at a Frobenius distance of 1e-6; measured on the unchanged code: median 3e-9, but about one fit in 40
+# of the single-phase templates ends at 4e-6 .. 1.4e-5 (random restarts), so 1e-6 would raise false alarms
+FIT_TOL = 1e-4
+
+
+def rand_phase(rng):
+    """a phase well away from 0 mod 2 pi (the converter's template choice has a 1e-4 threshold)"""
+    while True:
+        a = rng.rint(-3100, 3100) / 1000.0
+        if abs(a) >= 0.05:
+            return a
+
+
+def rand_u2(rng, kind=None):
+    kind = kind or rng.choice(BRANCHES)
+    e = lambda a: cmath.exp(1j * a)
+    if kind == "identity":
+        M = [[1, 0], [0, 1]]
+    elif kind == "upper-phase":
+        M = [[1, 0], [0, e(rand_phase(rng))]]
+    elif kind == "lower-phase":
+        M = [[e(rand_phase(rng)), 0], [0, 1]]
+    elif kind == "two-phases":
+        a = rand_phase(rng)
+        b = rand_phase(rng)
+        while abs(b - a) < 0.05:
+            b = rand_phase(rng)
+        M = [[e(a), 0], [0, e(b)]]
+    elif kind == "two-phases-equal":
+        a = rand_phase(rng)
+        M = [[e(a), 0], [0, e(a)]]
+    else:
+        t = rng.rint(30, 3000) / 1000.0 if kind == "dense" else rng.rint(10, 60) / 1000.0
+        g, a, b = rand_phase(rng), rand_phase(rng), rand_phase(rng)
+        c, s_ = math.cos(t / 2), math.sin(t / 2)
+        M = [[e(g + a + b) * c, -e(g + a - b) * s_], [e(g - a + b) * s_, e(g - a - b) * c]]
+    return [[[complex(z).real, complex(z).imag] for z in row] for row in M]
+
+
+def generic_branch(name, par):
+    """which template the converter is expected to choose (its thresholds), for signatures and the histogram"""
+    u = [[complex(z) for z in row] for row in gate_matrix(name, par)]
+    eps = 1e-4
+    if abs(u[1][0]) + abs(u[0][1]) < 2 * eps:
+        if abs(u[0][0] - 1) < eps:
+            return "identity" if abs(u[1][1] - 1) < eps else "upper-phase"
+        return "lower-phase" if abs(u[1][1] - 1) < eps else "two-phases"
+    return "dense"
+
 NAMED_ROT = {"x90": ("rx", math.pi / 2), "mx90": ("rx", -math.pi / 2), "y90": ("ry", math.pi / 2), "my90": ("ry", -math.pi / 2)}
 
 
@@ -256,6 +334,16 @@ def rand_circuit(rng, fw, nq, ngates, max2):
             b = (a + 1 + rng.below(nq - 1)) % nq
             gates.append((rng.choice(TWO_Q[fw]), [a, b], None))
             n2 += 1
+        elif GENERIC[fw] and rng.chance(1, 4):
+            name = rng.choice(GENERIC[fw])
+            par = None
+            if name == "u2":
+                par = rand_u2(rng)
+            elif name == "u":
+                par = [rng.rint(-3000, 3000) / 1000.0 for _ in range(3)]
+            elif name == "r":
+                par = [rng.rint(-3000, 3000) / 1000.0 for _ in range(2)]
+            gates.append((name, [rng.below(nq)], par))
         else:
             name = rng.choice(ONE_Q[fw])
             par = None
@@ -269,18 +357,27 @@ def build_source(fw, nq, gates):
     if fw == "qiskit":
         from qiskit import QuantumCircuit
         qc = QuantumCircuit(nq)
+        import numpy as np
         for name, qs, par in gates:
-            args = ([par] if par is not None else []) + qs
+            if name == "u2":
+                qc.unitary(np.array(cplx_rows(par)), qs[0])
+                continue
+            args = (list(par) if isinstance(par, list) else [par] if par is not None else []) + qs
             getattr(qc, name)(*args)
         return qc
     if fw == "myqlm":
-        from qat.lang.AQASM import Program, H, X, Y, Z, S, T, RX, RY, RZ, PH, CNOT, CSIGN, SWAP
-        tab = {"h": H, "x": X, "y": Y, "z": Z, "s": S, "t": T, "cx": CNOT, "cz": CSIGN, "swap": SWAP}
+        import numpy as np
+        from qat.lang.AQASM import Program, H, X, Y, Z, S, T, RX, RY, RZ, PH, CNOT, CSIGN, SWAP, I as QI_, AbstractGate
+        tab = {"h": H, "x": X, "y": Y, "z": Z, "s": S, "t": T, "cx": CNOT, "cz": CSIGN, "swap": SWAP, "id": QI_}
         ptab = {"rx": RX, "ry": RY, "rz": RZ, "p": PH}
         pr = Program()
         q = pr.qalloc(nq)
-        for name, qs, par in gates:
-            g = ptab[name](par) if name in ptab else tab[name]
+        for k, (name, qs, par) in enumerate(gates):
+            if name == "u2":
+                M = np.array(cplx_rows(par))
+                g = AbstractGate(f"G{k}", [], arity=1, matrix_generator=lambda M=M: M)()
+            else:
+                g = ptab[name](par) if name in ptab else tab[name]
             pr.apply(g, *[q[i] for i in qs])
         return pr.to_circ()
     tab = {"h": "H", "x": "X", "y": "Y", "z": "Z", "s": "S", "sdg": "Sdag", "t": "T", "tdg": "Tdag", "rx": "Rx", "ry": "Ry",
@@ -380,7 +477,10 @@ def evaluate(ctx, fw, nq, gates, ups, leak_budget=2e5, budget=None):
         return sig, info
     if A is None:
         return None, info
-    ok, lam, dev = proportional(A, Us, 1e-7 if info["route"] == "exact" else 1e-6)
+    fitted = sorted({generic_branch(nm, par) for nm, _, par in gates if nm in GENERIC_NAMES})
+    n_fit = sum(1 for nm, _, _ in gates if nm in GENERIC_NAMES)
+    tol = FIT_TOL * n_fit if fitted else (1e-7 if info["route"] == "exact" else 1e-6)
+    ok, lam, dev = proportional(A, Us, tol)
     info["factor"] = abs(lam)
     info["deviation"] = dev
     if not ok:
@@ -388,7 +488,9 @@ def evaluate(ctx, fw, nq, gates, ups, leak_budget=2e5, budget=None):
         # claimed only when the circuit has a CNOT plus a CZ or SWAP and its all-heralded conversion is right
         names = {nm for nm, _, _ in gates}
         sig = f"converter-logical-action-{fw}"
-        if ups and "cx" in names and (names & {"cz", "swap"}):
+        if fitted:      # a one-qubit gate outside the catalog is present: name the template(s) involved
+            sig = "converter-generic-1q-gate-" + "+".join(fitted)
+        elif ups and "cx" in names and (names & {"cz", "swap"}):
             if heralded_conversion_ok(fw, nq, gates, Us):
                 sig = "converter-postprocessed-cnot-with-cz-or-swap"
         return sig, info
@@ -571,6 +673,13 @@ def run(ctx):
                        ("qiskit", 2, [("h", [0], None), ("cx", [0, 1], None), ("h", [0], None), ("cz", [0, 1], None)], False),
                        ("qiskit", 3, [("h", [0], None), ("cx", [0, 2], None), ("h", [0], None)], True),
                        ("qiskit", 3, [("h", [0], None), ("cx", [0, 1], None), ("swap", [1, 2], None), ("cx", [0, 2], None)], True)]
+    # every template of the generic one-qubit conversion, observable (between Hadamards; next to a CNOT), each run
+    for fw in [f for f in ("qiskit", "myqlm") if f in avail]:
+        for kind in BRANCHES:
+            fixed_cases.append((fw, 1, [("h", [0], None), ("u2", [0], rand_u2(rng, kind)), ("h", [0], None)], True))
+        for kind in ("two-phases", "lower-phase", "dense"):
+            fixed_cases.append((fw, 2, [("h", [0], None), ("u2", [0], rand_u2(rng, kind)), ("cx", [0, 1], None),
+                                        ("u2", [1], rand_u2(rng, kind)), ("h", [1], None)], rng.chance(1, 2)))
     import time
     n_rand = ctx.n(96, 500)
     # exact-model budget: per request, in total, runner timeout per request, wall-clock deadline for exact requests
@@ -594,7 +703,11 @@ def run(ctx):
         cases.append((fw, nq, gates, ups))
     second_oracle = 0
     for fw, nq, gates, ups in cases:
-        nontriv = any(len(qs) == 2 or nm in ("h", "rx", "ry", "x", "y", "x90", "mx90", "y90", "my90") for nm, qs, _ in gates)
+        nontriv = any(len(qs) == 2 or nm in ("h", "rx", "ry", "x", "y", "x90", "mx90", "y90", "my90") or
+                      (nm in GENERIC_NAMES and generic_branch(nm, par) != "identity") for nm, qs, par in gates)
+        for nm, _, par in gates:
+            if nm in GENERIC_NAMES:
+                ctx.count("conv.generic." + generic_branch(nm, par))
         sig, info = evaluate(ctx, fw, nq, gates, ups, budget=budget)
         case = dict(show(fw, nq, gates, ups), **{k: (v if not isinstance(v, dict) else str(v)) for k, v in info.items()})
         ctx.case(["conv", fw, nq, [[nm, qs, par] for nm, qs, par in gates], ups], nontriv, case)
